@@ -164,6 +164,7 @@ func (j *c18Job) RunUnit(i int, c *run.Ctx) {
 		// canonical results once per document
 		canon := make([]impl.CallResult, j.ds.n())
 		for di := range canon {
+			c.Tick()
 			canon[di] = impl.Call(pb.F, j.ds.docs[m][di])
 			j.ds.restore(m, di)
 		}
@@ -184,6 +185,7 @@ func (j *c18Job) RunUnit(i int, c *run.Ctx) {
 				continue
 			}
 			for di := 0; di < j.ds.n(); di++ {
+				c.Tick()
 				res := impl.Call(pv.F, j.ds.docs[m][di])
 				j.ds.restore(m, di)
 				c.Evals++
